@@ -474,6 +474,7 @@ class Interp:
         self.memo = {}
         self.trace = bool(os.environ.get("MIRSYM_TRACE"))
         self.assumptions = []          # global facts about the symbolic inputs (z3 Bools)
+        self.clock_reads = []          # symbolic instants returned by SystemTime::now(), in call order
         self.fn_hooks = {}             # crate fn name -> hook(I, args, st) -> value | None (inductive hypotheses)
         from . import stdmodel, winnow
         stdmodel.register(self)
@@ -544,12 +545,15 @@ class Interp:
             keys.update(s.store.keys())
         store = {}
         for k in keys:
-            if k not in st0.store:
-                continue          # cells created by the callee are dead after return
+            if k not in st0.store and k[0] != "heap":
+                continue          # frame cells created by the callee are dead after return (heap cells survive)
             vals = [s.store.get(k) for s, _ in paths]
             v0 = vals[0]
             if all(v is v0 for v in vals):
                 store[k] = v0
+            elif any(v is None for v in vals):
+                live = [(g, v) for g, v in zip(guards, vals) if v is not None]
+                store[k] = merge_many(live) if live else None      # allocated on some paths only
             else:
                 store[k] = merge_many(list(zip(guards, vals)))
         # the merged path condition: st0.pc plus the disjunction of the path guards
@@ -664,6 +668,8 @@ class Interp:
                 return v.v
             if isinstance(v, BoxV):
                 return v.v
+            if isinstance(v, HeapBox):
+                return st.store[v.key]
             if isinstance(v, Ref):
                 return self.read_ref(v, st)
             raise Unsupported("deref of %r" % (v,))
@@ -680,6 +686,8 @@ class Interp:
             if isinstance(v, (BoxV, HeapBox)) and n == 0:
                 return v
             raise Unsupported("field %d of %r (%s)" % (n, v, type(v).__name__))
+        if k == "box":
+            return v.v
         if k == "downcast":
             if isinstance(v, Adt):
                 if v.variant != p[1]:
@@ -737,9 +745,12 @@ class Interp:
                     path = path + (("box",),)
                     continue
                 if isinstance(cur, HeapBox):
-                    # writes through the raw pointer of an uninitialised box: the MaybeUninit /
-                    # ManuallyDrop / MaybeDangling wrapper fields are transparent
-                    return cur.key, ()
+                    if st.store.get(cur.key) is None:
+                        # writes through the raw pointer of an uninitialised box (vec! lowering): the
+                        # MaybeUninit / ManuallyDrop / MaybeDangling wrapper fields are transparent
+                        return cur.key, ()
+                    key, path = cur.key, ()
+                    continue
                 if isinstance(cur, ValRef):
                     raise Unsupported("write through shared reference in " + fr.fn.name)
                 raise Unsupported("deref-resolve of %r" % (cur,))
@@ -857,6 +868,11 @@ class Interp:
             text = subst_env(c.value, fr.env)
             if text.endswith("SizedTypeProperties>::ALIGN") or text.endswith("SizedTypeProperties>::SIZE"):
                 return 8
+            m_ = re.match(r"\{(alloc\d+): &", text)
+            if m_ and m_.group(1) in (self.P.funcs.allocs or {}):
+                cf = self.P.find_const(self.P.funcs.allocs[m_.group(1)], fr.fn)
+                if cf is not None:
+                    return ValRef(self.eval_const_item(cf))
             if text.startswith("{") and text.endswith("}"):
                 raise Unsupported("const " + text)
             if text.startswith("{alloc") or text.startswith("Indirect") or text.startswith("Scalar("):
@@ -1393,6 +1409,18 @@ class Interp:
 
     def call_path(self, path, args, st, fr, term=None):
         """dispatch a call by path: hand-written crate trait impls, then intrinsic models, then crate MIR"""
+        if path.qself is not None and path.qself.startswith("dyn ") and args:
+            # dynamic dispatch on the concrete type behind the trait object
+            recv = args[0]
+            v = self.read_ref(recv, st) if isinstance(recv, Ref) else recv
+            while isinstance(v, (ValRef, BoxV, HeapBox)):
+                v = st.store[v.key] if isinstance(v, HeapBox) else v.v
+            if isinstance(v, Union):
+                raise Unsupported("dynamic dispatch on a union receiver")
+            ty = getattr(v, "ty", None)
+            if ty is None:
+                raise Unsupported("dynamic dispatch on %r" % (v,))
+            path = parse_path("<%s as %s>::%s" % (ty, path.trait, "::".join(path.names())))
         if path.trait is not None and path.qself is not None:
             r = self.P.resolve_fn(path, fr.env if fr else None, handwritten_only=True)
             if r is not None:
@@ -1483,6 +1511,8 @@ class Interp:
         """call a closure / fn item value with already-evaluated argument list"""
         if isinstance(callee, (ValRef, BoxV)):
             return self.call_value(callee.v, args, st)
+        if isinstance(callee, HeapBox):
+            return self.call_value(st.store[callee.key], args, st)
         if isinstance(callee, Ref):
             return self.call_value(self.read_ref(callee, st), args, st)
         if isinstance(callee, Closure):
